@@ -216,6 +216,7 @@ class LemmaExec(Exec):
         self.loop_ordinal = 0
         self.checking = True
         self.binders = 0
+        self.bound_stack = []
         self.notes = []
         self.is_generator = False
         self.fnname = "lemma." + self.qual
